@@ -345,6 +345,13 @@ def raw_specs():
         "Msg": {"oneOf": [R("Reply"), R("Text")], "discriminator": {"propertyName": "t"}},
         "Reply": {"type": "object", "required": ["t", "to"], "properties": {"t": {"const": "reply"}, "to": R("Msg"), "thread": {"type": "array", "items": R("Msg")}}},
         "Text": {"type": "object", "required": ["t"], "properties": {"t": {"const": "text"}, "body": {"type": "string"}, "quoted": R("Msg")}}})))
+    # recursion through array items / map values only (no object in between): emitted as a recursive type alias
+    out.append(("alias-recursion", wrap({
+        "Grid": {"type": "array", "items": {"type": "object", "additionalProperties": R("Grid")}},
+        "Holder": {"type": "object", "properties": {"g": R("Grid")}}})))
+    out.append(("array-alias-recursion", wrap({
+        "Forest": {"type": "array", "items": R("Forest")},
+        "Holder": {"type": "object", "properties": {"f": R("Forest")}}})))
     # undiscriminated named union, non-recursive member first
     out.append(("plain-union-tree", wrap({
         "Json": {"oneOf": [{"type": "string"}, {"type": "number"}, R("JsonArr"), R("JsonObj")]},
@@ -402,7 +409,9 @@ def main(tier, seed, replay=None):
         rc, txt, outp = results[i]
         dump = dumps[i] if i < len(dumps) else {"error": "no dump"}
         if rc != 0 or "error" in dump:
-            viol.append((name, g, spec, f"{name}: generator did not accept the (recursive) schemas: rc={rc} {txt} {dump.get('error', '')}"))
+            import c12 as _c12
+            cls = "recursive-array-alias-stack-overflow" if (rc in (-6, 134) and _c12.has_recursive_array_alias(spec)) else None
+            viol.append((name, g, spec, f"{name}: generator did not accept the (recursive) schemas: rc={rc} {txt} {dump.get('error', '')}", cls))
             continue
         if i >= len(model) or model[i].startswith("ERR"):
             res.oblige(f"model evaluates on {name}", False, model[i] if i < len(model) else "missing")
@@ -474,6 +483,8 @@ def main(tier, seed, replay=None):
             if rc in (-6, 134, -11, 139) or "stack overflow" in txt:
                 if g.get("allof_cycle"):
                     cls = "allof-cycle-stack-overflow"
+                elif c12.has_recursive_array_alias(spec):
+                    cls = "recursive-array-alias-stack-overflow"
                 elif c12.has_recursive_inline_union(spec):
                     cls = "recursive-union-helpers-stack-overflow"
             viol.append((name, g, spec, f"{name}: generator did not accept recursive schemas with default flags: rc={rc} {txt.strip()[-160:]}", cls))
@@ -741,8 +752,12 @@ def arena_part(res, tier, rng, specs, results, dumps, viol, d):
         codes = sorted({dg["code"] or "?" for dg in diags})
         if "E0072" in codes or "E0391" in codes:
             n_e0072 += 1
-        viol.append((name, g, spec, f"{name}: rustc rejects the emitted types: {codes}: {diags[0]['message'][:200]}"))
-    res.oblige(f"arena: {len(pick)} emitted modules compile (rustc accepts every type's size; E0072 count {n_e0072})", ok and not failed, err[:500] if not ok else "")
+        cls = "recursive-alias-schema" if (isinstance(g, dict) and g.get("raw") == "alias-recursion" and "E0391" in codes
+                                            and any("type alias" in dg["message"] for dg in diags)) else None
+        viol.append((name, g, spec, f"{name}: rustc rejects the emitted types: {codes}: {diags[0]['message'][:200]}", cls))
+    kf_keys = {k["key"] for k in vlib.known_findings("C10")}
+    unlisted = [v for v in viol if "rustc rejects" in v[3] and not (len(v) == 5 and v[4] in kf_keys)]
+    res.oblige(f"arena: {len(pick)} emitted modules compile apart from recorded known classes (rustc accepts every type's size; E0072/E0391 count {n_e0072})", ok and not unlisted, err[:500] if not ok else "")
     if not ok:
         return
     import subprocess
